@@ -23,8 +23,9 @@ RULE = ('(static) hierarchy-first wiring specs as in C06 (plain, "..", _path '
         'output-only ports) with a background process declaring every other '
         'variable of the stores (so masking is needed), run for 1..3 ticks with '
         'increments; (struct) collections viewed through glob ports by 1..3 '
-        'viewers with different timesteps and sub-schemas while an operator '
-        'process issues a generated history of _add/_delete/_move/_generate/'
+        'viewers with different timesteps and sub-schemas (processes, or steps '
+        'in the operator\'s layer / a later layer / flow-less derivers) while '
+        'an operator process or step issues a generated history of _add/_delete/_move/_generate/'
         '_divide. At every callback the states argument is compared for exact '
         'shape and values with the projection of the hierarchy snapshot taken '
         'in that same callback. Non-trivial = masking needed (store holds '
